@@ -188,10 +188,36 @@ pub fn late_reply(_a: &Value) -> Value {
     })
 }
 
+/// a call that went out with a numeric id is answered with the same digits as a text id (and with null): neither is "its own id", so the call must not complete with that result
+pub fn id_kind(_a: &Value) -> Value {
+    use crate::memclient::client;
+    let rt = tokio::runtime::Builder::new_multi_thread().worker_threads(2).enable_all().build().unwrap();
+    rt.block_on(async move {
+        let mut why = vec![];
+        let mut seen = vec![];
+        for other in ["text", "null"] {
+            let (c, mut s) = client(ClientBuilder::default().request_timeout(std::time::Duration::from_millis(500)));
+            let c = std::sync::Arc::new(c);
+            let ca = c.clone();
+            let h = tokio::spawn(async move { ca.request::<String, _>("a", rpc_params![]).await });
+            let rq = s.next_request().await.unwrap();
+            let wire = rq["id"].clone();
+            let id = if other == "text" { json!(wire.as_u64().map(|n| n.to_string()).unwrap_or_else(|| wire.to_string())) } else { Value::Null };
+            s.push(json!({"jsonrpc":"2.0","id":id,"result":"not-yours"}));
+            let out = h.await.unwrap();
+            seen.push(format!("{other}: wire id {wire} -> {:?}", out.as_ref().map_err(|e| e.to_string())));
+            if matches!(&out, Ok(v) if v == "not-yours") {
+                why.push(format!("a call sent with id {wire} completed with a response whose id is {id}"));
+            }
+        }
+        json!({"scenario":"c03_id_kind","observed":{"outcomes":seen},"violation":!why.is_empty(),"why":why.join(" | ")})
+    })
+}
+
 /// the routing scenarios together (a model of the routing step leaves open which of them shows it)
 pub fn routing(a: &Value) -> Value {
     let mut all = vec![];
-    for r in [fast_reply(&json!({"calls": 2, "delay_ms": 50})), late_reply(a), subid_collision(a)] {
+    for r in [fast_reply(&json!({"calls": 2, "delay_ms": 50})), late_reply(a), subid_collision(a), id_kind(a)] {
         if r["violation"].as_bool().unwrap_or(false) {
             return r;
         }
